@@ -493,6 +493,31 @@ def load_error_classes():
 CATALOGUE_FILE = Path(__file__).resolve().parent / "catalogue.json"
 
 
+def identity_sites(table):
+    """(scalar, site, tag) such that the site of the lax closure returns its datum unchanged on every corpus datum of the tag"""
+    from extract import hostile
+    seen: dict = {}
+    for (name, strict), tc in table.items():
+        if strict:
+            continue
+        for mk in hostile.corpus():
+            d = mk()
+            tag = tag_of(d)
+            log, _final = site_outcomes(tc, d)
+            for site, (kind, payload) in log.items():
+                same = kind != "raises" and (payload is d or (type(payload) is type(d) and _safe_eq(payload, d)))
+                key = (name, site, tag)
+                seen[key] = seen.get(key, True) and same
+    return sorted(k for k, v in seen.items() if v)
+
+
+def _safe_eq(a, b) -> bool:
+    try:
+        return bool(a == b)
+    except Exception:  # noqa: BLE001
+        return False
+
+
 def emit(repo: Path, lean_dir: Path):
     """EXTRACT entry point: rewrite Generated/Scalars.lean from the working tree."""
     table = closure_table()
@@ -586,6 +611,12 @@ def emit(repo: Path, lean_dir: Path):
         if isinstance(tp, type):
             lines.append(f"  | {lstr(n)} => {lstr(type_name(tp))}")
     lines.append("  | other => other")
+    lines.append("")
+    lines.append("/-- (scalar, call site of its LAX closure, datum tag): on every corpus datum of that tag the call returns the datum")
+    lines.append("    itself (`int(x)` of an exact int, `str(x)` of an exact str, `Decimal(x)` of a Decimal ...). Observed on this run. -/")
+    lines.append("def identitySites : List (String × String × String) := [")
+    lines.append(",\n".join(f"  ({lstr(a)}, {lstr(b)}, {lstr(c)})" for a, b, c in identity_sites(table)))
+    lines.append("]")
     lines.append("")
     lines.append("/-- (scalar, strict) ↦ (program, catalogue) -/")
     lines.append("def closures : List ((String × Bool) × Block × (String → String → List SiteClass)) := [")
